@@ -140,10 +140,12 @@ def run(tier):
     #          the handler must end exactly as the specification says (error naming that peer), without a panic, its
     #          channel closed exactly once
     vlib.build(["hsim"])
-    for shape, n, proto in ([("b,bm", 3, "toy:b,bm")] if quick else [("b,bm", 3, "toy:b,bm"), ("bm,bm", 3, "toy:bm,bm"), ("b,b,b", 3, "toy:b,b,b"), ("m", 3, "toy:m")]):
+    # (a duplicate delivery multiplies the orders: with it the shape bm,bm has 2.5 M orders per failing slot, ten minutes of TLC
+    #  and as much of replay each - the first complete thorough pass spent 90 minutes there; duplicates on the small shapes only)
+    for shape, n, proto, dup in ([("b,bm", 3, "toy:b,bm", 0)] if quick else [("b,bm", 3, "toy:b,bm", 1), ("bm,bm", 3, "toy:bm,bm", 0), ("b,b,b", 3, "toy:b,b,b", 0), ("m", 3, "toy:m", 1)]):
         if shape not in hc.SHAPES:
             continue
-        bs, bg, bn, bf = hc.bad_orders(wd, rep, shape, n, proto, sd, dup=0 if quick else 1)
+        bs, bg, bn, bf = hc.bad_orders(wd, rep, shape, n, proto, sd, dup=dup)
         states += bs; trans += bg
         rep.add_counts(evaluations=bn)
         rep.notes.append("HandlerLocal.tla bad mode, shape %s: %d delivery orders with one failing message replayed on the real handler (%s)" % (shape, bn, proto))
